@@ -45,6 +45,20 @@ def subject(request):
     return None
 
 
+class Recorder:
+    """A handler is any callable.  This one is also an (empty) container - a call recorder, a Counter with __call__ -
+    so its truth value is False: being installed, not being truthy, is what makes it serve."""
+
+    def __init__(self, fn):
+        self.fn = fn
+
+    def __call__(self, request):
+        return self.fn(request)
+
+    def __len__(self):
+        return 0
+
+
 class Tap:
     def __init__(self, types=None, on_event=None, keep=True):
         self.types = list(types or REQUEST_TYPES)
@@ -89,13 +103,15 @@ class Tap:
                 self.on_event("return", kind, request, st, result)
             return result
 
-        return handler
+        return Recorder(handler)
 
     def __enter__(self):
         cur = _rt.current_runtime()
         handlers = {}
         for T in self.types:
-            inner = cur.handlers.get(T) or _rt._DEFAULT_HANDLERS.get(T)
+            inner = cur.handlers.get(T)
+            if inner is None:
+                inner = _rt._DEFAULT_HANDLERS.get(T)
             if inner is None:
                 continue
             handlers[T] = self._passthrough(T, inner)
